@@ -115,6 +115,11 @@ def analytic(m, y0):
     return dict(zip(names, np.linalg.solve(A2, -b2), strict=True)), A
 
 
+# length of the segment simulated before the steady-state search: shorter than, equal to and longer than the
+# search's own step (100 time units)
+PRIOR = (5.0, 100.0, 250.0)
+
+
 def generate(tier):
     rates = RATES_Q if tier == "quick" else RATES_T
     cases = []
@@ -126,7 +131,8 @@ def generate(tier):
                     cases.append({"net": net, "ks": list(ks), "c": c, "y0": y0m, "tol": tol, "rel": rel, "via": "simulator", "stable": True})
                 for y0m, rel in it.product(("default", "high"), (False, True)):
                     cases.append({"net": net, "ks": list(ks), "c": c, "y0": y0m, "tol": 1e-6, "rel": rel, "via": "scan", "stable": True})
-                    cases.append({"net": net, "ks": list(ks), "c": c, "y0": y0m, "tol": 1e-6, "rel": rel, "via": "simulator-continued", "stable": True})
+                    for prior in PRIOR:
+                        cases.append({"net": net, "ks": list(ks), "c": c, "y0": y0m, "tol": 1e-6, "rel": rel, "via": "simulator-continued", "prior": prior, "stable": True})
     for net, ks_list, cs in (("influx-only", [[0.0]], [0.001, 1.0, 2.0]), ("noefflux", [[k] for k in rates], [1.0, 2.0]),
                              ("growth", [[0.02], [0.1], [1.0]], [0.0])):
         for ks in ks_list:
@@ -137,7 +143,8 @@ def generate(tier):
                     cases.append({"net": net, "ks": ks, "c": c, "y0": y0m, "tol": tol, "rel": rel, "via": "simulator", "stable": False})
                 for rel in (False, True):
                     cases.append({"net": net, "ks": ks, "c": c, "y0": "default", "tol": 1e-6, "rel": rel, "via": "scan", "stable": False})
-                    cases.append({"net": net, "ks": ks, "c": c, "y0": "default", "tol": 1e-6, "rel": rel, "via": "simulator-continued", "stable": False})
+                    for prior in PRIOR:
+                        cases.append({"net": net, "ks": ks, "c": c, "y0": "default", "tol": 1e-6, "rel": rel, "via": "simulator-continued", "prior": prior, "stable": False})
     return cases
 
 
@@ -167,7 +174,7 @@ def check(case):
         if case["via"] in ("simulator", "simulator-continued"):
             sim = Simulator(m, y0=y0)
             if case["via"] == "simulator-continued":
-                sim.simulate(5.0, steps=5)  # an earlier, successful segment
+                sim.simulate(case.get("prior", 5.0), steps=5)  # an earlier, successful segment
             res = sim.simulate_to_steady_state(tolerance=case["tol"], rel_norm=case["rel"]).get_result()
             if isinstance(res.value, Exception):
                 success = False
